@@ -164,7 +164,20 @@ class Ctx:
                 raise RuntimeError("harness: seek did not reach the tree (C06 territory)")
             self.tables = None
             return
-        self.ts = m.ts()
+        tc = m.tables()
+        # metadata schemas on the (empty) site / mutation tables, varied over the members: the mutations that
+        # map_mutations returns are built outside any table and must not need the schema's cooperation
+        import tskit
+
+        k = (m.N + m.G + len(m.edges())) % 3
+        if k == 1:
+            tc.mutations.metadata_schema = tskit.MetadataSchema(
+                {"codec": "struct", "type": "object", "properties": {"x": {"type": "integer", "binaryFormat": "i", "default": 7}}})
+            tc.time_units = "uncalibrated"
+        elif k == 2:
+            tc.mutations.metadata_schema = tskit.MetadataSchema({"codec": "json", "type": "object"})
+            tc.sites.metadata_schema = tskit.MetadataSchema({"codec": "json"})
+        self.ts = tc.tree_sequence()
         if [int(x) for x in self.ts.samples()] != self.samples or self.ts.num_trees != len(ivs):
             raise RuntimeError("harness: samples()/num_trees differ from the member (C01 territory)")
         self.tree = self.ts.at_index(ti)
